@@ -24,7 +24,7 @@ ASSUMPTIONS = [
     "configurations not reachable from a sealed root stay mutable and are not asserted on",
     "the configuration returned by task_outputs is created after sealing and is not a target",
 ]
-MIN_CLASSES = {"quick": {"mutation-on-sealed": 3000, "target-below-root": 800, "op:assign": 1500, "op:setmeta": 500, "op:addpre": 300, "via-seal()": 500, "op:instance": 300, "op:reseal": 300}, "thorough": {"target-below-root": 15000}}
+MIN_CLASSES = {"quick": {"mutation-on-sealed": 3000, "target-below-root": 800, "op:assign": 1500, "op:setmeta": 500, "op:addpre": 300, "via-seal()": 500, "op:instance": 300, "op:reseal": 300}, "thorough": {"target-below-root": 8000}}
 MAX_NODES = {"quick": 6, "thorough": 10}
 
 OPS = ["assign", "assign", "assign", "setmeta", "addpre", "addprefrom", "id", "id", "instance", "reseal"]
@@ -225,5 +225,5 @@ def prop(ctx, case):
     ctx.record(nt, sorted(labels) + bpl.describe(bp))
 
 
-PARTS = [Part("frozen", prop, strategy=cases, quick=12800, thorough=160000)]
+PARTS = [Part("frozen", prop, strategy=cases, quick=12800, thorough=96000)]
 TIMEOUT = {"quick": 600, "thorough": 3600}
